@@ -1086,6 +1086,10 @@ func runReplay(env *vh.Env, rep *vh.Report, self string) {
 		switch c.Mode {
 		case "stream":
 			replayStream(rep, c)
+		case "large":
+			replayLarge(env, rep, c)
+		case "alias":
+			replayAlias(rep, c)
 		case "collide": // decode A, then B (What = hexA>hexB), judge the decode of Hex
 			rep.Case("replay-collide:"+c.Hex, true)
 			if i := strings.Index(c.What, ">"); i > 0 {
